@@ -29,8 +29,15 @@ def closed_form(q, eps, sens, base=None, mono=False):
     return w / w.sum()
 
 
-def gen_q(r):
+def gen_q(r, huge=False):
     n = r.randint(1, 12)
+    if huge:
+        # a huge common offset with small exactly representable gaps (adding a constant must not change the distribution), or
+        # qualities near the top of the double range (selection must stay well defined)
+        if r.random() < 0.7:
+            K = r.choice([2.0 ** 40, -2.0 ** 44, 2.0 ** 50, 2.0 ** 52])
+            return [K + float(r.randint(0, 6)) for _ in range(n)]
+        return [r.choice([1.0, 0.5, 0.25, -1.0]) * 1e308 for _ in range(n)]
     mag = r.choice([1, 1, 10, 1e3, 1e6])
     q = [r.choice([0, 1, 2, 3, -1, 0.5]) * mag if r.random() < 0.5 else r.uniform(-1, 1) * mag for _ in range(n)]
     if n > 1 and r.random() < 0.3:
@@ -49,7 +56,7 @@ def run(res, drv, tier, seed):
     reqs, rows = [], []
     for _ in range(n):
         prim = r.choice(['mech', 'mech-dict', 'mech-base', 'gem', 'mst', 'mst-mono', 'ada', 'ada-mono', 'mwem', 'mwem-bounded'])
-        q = gen_q(r)
+        q = gen_q(r, huge=(prim in ('mech', 'mech-dict', 'mech-base', 'mst', 'ada') and r.random() < 0.15))
         eps = math.exp(r.uniform(math.log(1e-3), math.log(50)))
         sens = r.choice([0.5, 1.0, 2.0, 7.0])
         shift = r.choice([0.0, 0.0, 5.0, -1e3, 1e5])
@@ -106,12 +113,18 @@ def run(res, drv, tier, seed):
                     answers[(a,)] = np.array([abs(qi), 0.0])
                 saved = np.random.choice
                 np.random.choice = lambda a, size=None, replace=True, p=None: fake.choice(a, size, replace, p)
+                # the candidate list is the caller's workload: a clique listed k times is k candidates (a workload weighted by repetition)
+                cand = list(range(k))
+                if k and r.random() < 0.4:
+                    cand += [r.randrange(k) for _ in range(r.randint(1, 3))]
+                    r.shuffle(cand)
+                    res.count('mwem: candidate list with a repeated clique')
                 try:
                     with np.errstate(all='ignore'):
-                        mw.worst_approximated(answers, est, [(a,) for a in dom.attrs], eps, penalty=False, bounded=bounded)
+                        mw.worst_approximated(answers, est, [(dom.attrs[i],) for i in cand], eps, penalty=False, bounded=bounded)
                 finally:
                     np.random.choice = saved
-                q = [abs(x) for x in q]
+                q = [abs(q[i]) for i in cand]
                 want_sens = 2.0 if bounded else 1.0
         except Exception as e:
             res.violation('failing-input', f'{prim} raises {type(e).__name__}: {e}', {'request': {'prim': prim, 'q': q, 'eps': eps, 'sens': sens}}, key='em:raises')
